@@ -98,6 +98,10 @@ static unsigned long long to_bits(double x) { unsigned long long b; memcpy(&b, &
 static void pv(const mjtNum* v, int n) { for (int i = 0; i < n; i++) printf(" %016llx", to_bits(v[i])); }
 static void ptypes(const mjModel* m) { printf("%d", m->njnt); for (int j = 0; j < m->njnt; j++) printf(" %d", m->jnt_type[j]); }
 
+// time-dependent control callback for the RK4 stage-time check: ctrl[0] = c0 + c1 t + c2 t^2
+static double cb_c[3] = {0, 0, 0};
+static void time_ctrl_cb(const mjModel* m, mjData* d) { if (m->nu > 0) d->ctrl[0] = cb_c[0] + cb_c[1] * d->time + cb_c[2] * d->time * d->time; }
+
 int main(void) {
   mjg_install_handlers();
   char* line = NULL; size_t cap = 0;
@@ -343,18 +347,22 @@ int main(void) {
     } else if (op == 'R') {
       double a[6]; for (int i = 0; i < 6; i++) a[i] = from_bits(strtoull(p, &p, 16));
       int integ = (int)strtol(p, &p, 10);
+      for (int i = 0; i < 3; i++) cb_c[i] = from_bits(strtoull(p, &p, 16));     // absent: 0
       mjSpec* s = mj_makeSpec();
       s->option.timestep = a[3]; s->option.gravity[0] = s->option.gravity[1] = s->option.gravity[2] = 0;
       s->option.integrator = integ; s->option.disableflags |= mjDSBL_EULERDAMP;
       mjsBody* b = mjs_addBody(mjs_findBody(s, "world"), NULL);
       mjsJoint* j = mjs_addJoint(b, NULL); j->type = mjJNT_SLIDE; j->axis[0] = 1; j->axis[1] = 0; j->axis[2] = 0;
-      j->stiffness[0] = a[0]; j->damping[0] = a[1];
+      j->stiffness[0] = a[0]; j->damping[0] = a[1]; mjs_setName(j->element, "s");
+      { mjsActuator* ac = mjs_addActuator(s, NULL); ac->trntype = mjTRN_JOINT; mjs_setString(ac->target, "s"); mjs_setToMotor(ac); }
       mjsGeom* g = mjs_addGeom(b, NULL); g->type = mjGEOM_SPHERE; g->size[0] = 0.1; g->mass = a[2]; g->contype = 0; g->conaffinity = 0;
       mjModel* m = mj_compile(s, NULL);
       if (!m) { printf("ERR compile %s\n", mjs_getError(s)); mj_deleteSpec(s); fflush(stdout); continue; }
       mjData* d = mj_makeData(m);
       d->qpos[0] = a[4]; d->qvel[0] = a[5]; d->time = 0.25;
+      mjcb_control = time_ctrl_cb;
       mj_step(m, d);
+      mjcb_control = NULL;
       pv(d->qpos, 1); pv(d->qvel, 1); pv(&d->time, 1); pv(m->body_mass + 1, 1); printf("\n");
       mj_deleteData(d); mj_deleteModel(m); mj_deleteSpec(s);
     } else {
